@@ -333,13 +333,23 @@ where
         let (w, h) = ((g % (mw as u64 + 1)) as u32, (g / (mw as u64 + 1)) as u32);
         one_case::<C, O>(ctx, tname, w, h, rng);
     });
+    // wide parents: row lengths and skips beyond 255 pixels/bytes (8-bit counters, strides)
+    const WIDE: [u32; 12] = [255, 256, 257, 258, 263, 264, 300, 320, 511, 513, 640, 1000];
+    let wname: &'static str = Box::leak(format!("{}-wide-parents", tname).into_boxed_str());
+    let wreps = run.tier(2u64, 40u64);
+    run.generate(wname, WIDE.len() as u64 * 3 * wreps, false, 0.1, |ctx, idx, rng| {
+        let w = WIDE[(idx % WIDE.len() as u64) as usize] + if idx % 5 == 4 { rng.u32r(0, 9) } else { 0 };
+        let h = 2 + ((idx / WIDE.len() as u64) % 3) as u32;
+        one_case::<C, O>(ctx, tname, w, h, rng);
+        ctx.count("wide_parent_cases", 1);
+    });
 }
 
 fn main() {
     main_with("c09", "exploration", |run| {
         run.set_rule(
             "7 raw widths (1,2,4,8,16,24 bits with library colours, 32 bits with a harness colour over RawU32) x 2 data orders x all image sizes 0..=W x 0..=H x random bytes x random draw offsets x \
-             sub-image areas (inside, overlapping each edge, outside, zero-sized) nested up to three times; each drawn on an unbounded draw_iter-only target, an unbounded native target that drains the colour \
+             sub-image areas (inside, overlapping each edge, outside, zero-sized) nested up to three times, plus wide parents (255..=1009 pixels x 2..=4 rows, so that row strides and skips exceed 255); each drawn on an unbounded draw_iter-only target, an unbounded native target that drains the colour \
              stream, and bounded targets cutting the image. Non-trivial = image at least 2x2; distinct = distinct (type, order, size, bytes).",
         );
         run.assume("layout model written from the documentation (rows padded to whole bytes; LittleEndianMsb0 / BigEndianLsb0 as documented)");
